@@ -564,6 +564,14 @@ def apply_contract(ex, c, selfv, args, kwargs, st, node, spec):
         if p in post.env:
             post.env[p] = fresh_like(post.env[p], f"{c.name}.{p}.post")
             inv += shape_invariants(post.env[p])
+        elif "." in p:
+            # `param.field`: only that field of the object may change
+            p0, f_ = p.split(".", 1)
+            o_ = post.env.get(p0)
+            if isinstance(o_, ObjV) and f_ in o_.fields:
+                nv = fresh_like(o_.fields[f_], f"{c.name}.{p}.post")
+                inv += shape_invariants(nv)
+                post.env[p0] = o_.with_field(f_, nv)
     result = None
     if c.ret is not None:
         result = api.mk(c.ret, f"{c.name}.result", inv)
@@ -579,12 +587,13 @@ def apply_contract(ex, c, selfv, args, kwargs, st, node, spec):
     for lab, e in c._ensures:
         st.pc.append(boolify(sub_ex.ev(e, post, True)))
     new_self = None
-    if is_method and sname in c.modifies:
+    mod_roots = {p.split(".", 1)[0] for p in c.modifies}
+    if is_method and sname in mod_roots:
         new_self = post.env[sname]
     # write back modified non-self parameters
     wb = {}
-    for p in c.modifies:
-        if not (is_method and p == sname):
+    for p in sorted(mod_roots):
+        if not (is_method and p == sname) and p in post.env:
             wb[p] = post.env[p]
     if wb and not spec:
         argnodes = list(getattr(node, "args", []))
